@@ -187,6 +187,15 @@ func H_mutate() {
 func hAcceptOracle(consumed, out []byte) {
 	content, ok := refStream(consumed)
 	if !ok {
+		// known finding: the Reader ignores the DictID flag (it does not skip the 4-byte
+		// dictionary id, which the specification also covers with the header checksum)
+		refIgnoreDictID = true
+		c1, ok1 := refStream(consumed)
+		refIgnoreDictID = false
+		if ok1 {
+			vfAssertK("accept-implies-reference-accepts", false, "C05-dictid-flag-ignored", vfEqBytes(out, c1))
+			return
+		}
 		// classify against the known findings: legacy blocks carrying the "stored" flag, and
 		// legacy blocks decoded with the previous block as dictionary
 		refAllowLegacyRaw, refLegacyDict = true, true
